@@ -525,7 +525,12 @@ func (o *operation) handle() {
 	reqMsg := message{
 		sameCompression: sameRequestCompression,
 		sameCodec:       sameRequestCodec,
+		// A server protocol without envelopes declares compression for the whole body, so
+		// a message that arrived uncompressed in a compressed stream must be compressed.
+		forceCompress: o.serverEnveloper == nil && o.server.reqCompression != nil,
 	}
+	reframeOnly := sameRequestCompression && sameRequestCodec && !mustDecodeRequest &&
+		!(reqMsg.forceCompress && o.clientEnveloper != nil)
 
 	if mustDecodeRequest {
 		// Need the message type to decode
@@ -597,7 +602,7 @@ func (o *operation) handle() {
 	case skipBody:
 		// drain any contents of body so downstream handler sees empty
 		o.drainBody(o.request.Body)
-	case sameRequestCompression && sameRequestCodec && !mustDecodeRequest:
+	case reframeOnly:
 		// we do not need to decompress or decode; just transforming envelopes
 		o.request.Body = &envelopingReader{rw: rw, r: o.request.Body}
 	default:
@@ -1190,6 +1195,9 @@ func (w *responseWriter) WriteHeader(statusCode int) {
 	mustDecodeResponse := !sameResponseCodec
 
 	respMsg := message{sameCompression: true, sameCodec: sameResponseCodec}
+	// A client protocol without envelopes declares compression for the whole body, so a
+	// message the server sent uncompressed in a compressed stream must be compressed.
+	respMsg.forceCompress = w.op.clientEnveloper == nil && w.op.client.respCompression != nil
 
 	if mustDecodeResponse {
 		// We will have to decode and re-encode, so we need the message type.
@@ -1213,7 +1221,7 @@ func (w *responseWriter) WriteHeader(statusCode int) {
 	}
 
 	// Now we can define the transformed response body.
-	if sameResponseCodec && !mustDecodeResponse {
+	if sameResponseCodec && !mustDecodeResponse && !(respMsg.forceCompress && w.op.serverEnveloper != nil) {
 		// we do not need to decompress or decode
 		w.w = &envelopingWriter{rw: w, w: delegate}
 	} else {
@@ -1979,6 +1987,9 @@ type message struct {
 	// wasCompressed is true if the data was originally compressed; this can
 	// be false in a stream when the stream envelope's compressed bit is unset.
 	wasCompressed bool
+	// forceCompress is true if the outgoing data must be compressed even when
+	// it did not arrive compressed (the outgoing protocol has no per-message flag).
+	forceCompress bool
 	// original size of the message on the wire, in bytes
 	size int
 
@@ -2043,7 +2054,7 @@ func (m *message) advanceToStage(op *operation, newStage messageStage) error {
 
 	// Fast path: stageRead only, buffer still in original encoding.
 	if m.stage == stageRead && newStage == stageSend && m.sameCodec &&
-		(!m.wasCompressed || m.sameCompression) {
+		(!m.wasCompressed || m.sameCompression) && !(m.forceCompress && !m.wasCompressed) {
 		m.stage = newStage
 		return nil
 	}
@@ -2056,8 +2067,10 @@ func (m *message) advanceToStage(op *operation, newStage messageStage) error {
 			}
 			return m.advanceToStage(op, newStage)
 		}
-		if err := m.decompress(op); err != nil {
-			return err
+		if m.wasCompressed {
+			if err := m.decompress(op); err != nil {
+				return err
+			}
 		}
 		if err := m.compress(op); err != nil {
 			return err
@@ -2079,7 +2092,7 @@ func (m *message) advanceToStage(op *operation, newStage messageStage) error {
 				return err
 			}
 		}
-		if m.wasCompressed {
+		if m.wasCompressed || m.forceCompress {
 			if err := m.compress(op); err != nil {
 				return err
 			}
